@@ -565,20 +565,22 @@ def flattenOut (sep : String) (t : Entry) : Except Err Entry :=
   if (dedup flat).length < flat.length then .error .key
   else .ok (.node (dictBuild (flat.zip (lv.map (·.2)))))
 
+/-- `all_vals = [self.pop(leaf) for leaf in all_leaves]` -/
+def popAll : List Path → Entry → List Entry → Entry × Except Err (List Entry)
+  | [], t, acc => (t, .ok acc.reverse)
+  | p :: r, t, acc =>
+    match popT p false t with
+    | (t', .val (some v)) => popAll r t' (v :: acc)
+    | (t', .err e) => (t', .error e)
+    | (t', _) => (t', .error .runtime)
+
 /-- mirrors base.py:_flatten_keys_inplace (after the `fix:` commit): pop every leaf, exclude what is
 left, write the flat names -/
 def flattenIn (sep : String) (t : Entry) : Entry × Out :=
   let leaves := keysView ⟨true, true, false, true⟩ t
   let flat := leaves.map (joinWith sep)
   if (dedup flat).length < (dedup leaves).length then (t, .err .key) else
-  let rec pops : List Path → Entry → List Entry → Entry × Except Err (List Entry)
-    | [], t, acc => (t, .ok acc.reverse)
-    | p :: r, t, acc =>
-      match popT p false t with
-      | (t', .val (some v)) => pops r t' (v :: acc)
-      | (t', .err e) => (t', .error e)
-      | (t', _) => (t', .error .runtime)
-  match pops leaves t [] with
+  match popAll leaves t [] with
   | (t1, .error e) => (t1, .err e)
   | (t1, .ok vals) =>
     match excludeT ((rootKeys t1).map ([·])) true t1 with
